@@ -206,6 +206,23 @@ Definition call_regions (has_imul aliases aug : bool) (st : cone) (explicit : op
 Definition call_src := call_regions src_iv_has_imul src_call_aliases_stored_search src_call_product_augassign.
 
 
+(* ------------------------------------------------------------------ rft.py: _hermitenorm_coeffs (used by Q, i.e. by every EC density) *)
+(* rft.py:62-76, statement by statement: a, b = [1], [1, 0]; n == 0 returns a; `for r in range(1, n)`:
+   shifted = b + [0]; padded = [0]*(len(shifted)-len(a)) + a; a, b = b, [u - r*v for u, v in zip(shifted, padded)]; returns b.
+   Coefficients are Python ints (exact), highest power first; `zip` truncates like `combine`.  hev is Horner evaluation of a
+   highest-power-first coefficient list (what np.poly1d(coeffs)(x) computes).  Hand model; compared exactly with the
+   implementation (and with Q(dim).c for dfd = inf) by the harness. *)
+Definition herm_step (r : Z) (a b : list Z) : list Z :=
+  let shifted := b ++ [0] in
+  let padded := repeat 0 (length shifted - length a) ++ a in
+  map (fun uv => fst uv - r * snd uv) (combine shifted padded).
+Fixpoint herm_loop (k : nat) (r : Z) (a b : list Z) : list Z * list Z :=
+  match k with O => (a, b) | S k' => herm_loop k' (r + 1) b (herm_step r a b) end.
+Definition hermitenorm_coeffs (n : nat) : list Z :=
+  match n with O => [1] | S m => snd (herm_loop m 1 [1] [1; 0]) end.
+Definition hev (p : list Z) (x : Z) : Z := fold_left (fun acc c => acc * x + c) p 0.
+
+
 (* helpers for the harness *)
 Definition flat_table (ss : pt) (D : list (list pt)) : list (list Z) := map (map (flat ss)) D.
 Definition solid : pt -> bool := fun _ => true.
